@@ -64,7 +64,7 @@ def run(tier, seed):
     # of Const write exactly the reported type, tag and fields (per-class encode/decode lemmas shared with C05)
     codec_files = [os.path.join(VERIF, "contracts", f) for f in ("node_port.py", "tys.py", "codec.py", "ops.py")]
     codec_lemmas = ["code_lemma:rt_val_Sum", "code_lemma:rt_val_Extension", "code_lemma:rt_op_Const", "code_lemma:rt_op_LoadConst"]
-    standard_flow(res, FILES, targets(), None, bounded_modules=[("bounded.c14", 180, 900)], more=[(codec_files, codec_lemmas),
+    standard_flow(res, FILES, targets(), None, bounded_modules=[("bounded.c14", 900, 1800)], more=[(codec_files, codec_lemmas),
                         # a function-valued constant has the signature of its body; the LoadConstant built for a constant node has the reported type
                         ([os.path.join(VERIF, "contracts", f) for f in ("node_port.py", "tys.py", "ops.py", "utils.py", "base.py", "val_function.py")], ["hugr.val.Function.type_"]),
                         ([os.path.join(VERIF, "contracts", f) for f in ("node_port.py", "tys.py", "ops.py", "utils.py", "base.py", "load.py")], ["hugr.build.dfg.DfBase.load#node"])])
